@@ -112,6 +112,8 @@ class HSInit(Harness):
                 lo, hi = g[d][0], g[d][1]
                 eng.assume(z3.And(x0[0, d].e > (lo if math.isfinite(lo) else -1e4), x0[0, d].e < (hi if math.isfinite(hi) else 1e4)))
         self_.x0 = x0
+        held = [self_.lower_bounds, self_.upper_bounds, self_.plausible_lower_bounds, self_.plausible_upper_bounds]
+        held_before = [a.copy() for a in held]
         cons_calls = []
 
         def nbc(X):
@@ -127,6 +129,7 @@ class HSInit(Harness):
         except ValueError as e:
             err = e
         out.tag = dict(err=str(err)[:30] if err else None, ncons=len(cons_calls))
+        out.ob("caller_bound_arrays_not_written", all(np.array_equal(a, b, equal_nan=True) for a, b in zip(held, held_before)))
         olb, oub = np.array([[q[0] for q in g]]), np.array([[q[1] for q in g]])
         for Xq, ans in cons_calls:
             for r in range(Xq.shape[0]):
